@@ -11,12 +11,23 @@ import re
 import subprocess
 import sys
 
+MERGE_ONLY = '--merge-only' in sys.argv      # only copy the confirmation results (tools/confirm_seeded.sh) into meta.json
+sys.argv = [a for a in sys.argv if a != '--merge-only']
 ids = sys.argv[1:] or sorted(os.path.basename(os.path.dirname(p)) for p in glob.glob('/verif/seeded/*/meta.json'))
 head = subprocess.run(['git', '-C', '/repo', 'log', '--format=%h', '-1'], capture_output=True, text=True).stdout.strip()
 for sid in ids:
     d = f'/verif/seeded/{sid}'
     meta = json.load(open(f'{d}/meta.json'))
     checks = sorted(meta.get('checks_run') or [meta['property']])
+    if MERGE_ONLY:
+        conf = f'/tmp/seeded_confirm/{sid}.txt'
+        line = open(conf).read().strip()
+        m = re.search(r"demo_pristine=(\d+) demo_patched=(\d+) suite=\[(.*)\]", line)
+        meta['confirmed'].update({'demo_exit_on_pristine_tree': int(m.group(1)), 'demo_exit_with_patch': int(m.group(2)),
+                                  'suite_with_patch': m.group(3), 'confirmed_at_repo_head': re.search(r"head=(\w+)", line)[1]})
+        json.dump(meta, open(f'{d}/meta.json', 'w'), indent=1)
+        print(sid, 'merged', m.group(3))
+        continue
     scratch = os.environ.get('SEED_SCRATCH')     # SEED_SCRATCH=1: scratch worktree + VERIF_REPO, /repo is not touched
     target = '/repo'
     if scratch:
